@@ -49,33 +49,33 @@ type LetDef struct {
 }
 
 type FuncContract struct {
-	Key         string // full function key
-	Short       string
-	Pkg         string
-	Props       []string
-	Requires    []*Clause
-	Ensures     []*Clause
-	Modifies    []*SExpr
-	HasModifies bool
-	Loops       map[int]*LoopSpec
-	InlineLoops map[string]*LoopSpec // loops of callees executed in place: "<callee pattern>#<ordinal>"
-	Pure        bool
-	Inline      bool
-	Trusted     bool // contract is assumed, body not verified (external functions)
-	NoBody      bool
-	Asserts     []*SiteAssert
-	Lets        []LetDef
-	Relies      []*Clause
-	Ghosts      []GhostUpdate
-	ParamNames  []string      // interface contracts: parameter names of the method
-	AssumeAsserts []string    // type assertions to these types are assumed to succeed (listed)
-	BV          bool          // verify in bit-vector mode
-	Consumes    []ConsumeSpec // function-typed parameters / expressions completed exactly once
-	Implements  []string      // interface contracts (keys) this function must refine
-	InlineCalls []string      // callees (by name pattern) whose body is executed in place in this function
-	File        string
-	Line        int
-	Used        bool
+	Key           string // full function key
+	Short         string
+	Pkg           string
+	Props         []string
+	Requires      []*Clause
+	Ensures       []*Clause
+	Modifies      []*SExpr
+	HasModifies   bool
+	Loops         map[int]*LoopSpec
+	InlineLoops   map[string]*LoopSpec // loops of callees executed in place: "<callee pattern>#<ordinal>"
+	Pure          bool
+	Inline        bool
+	Trusted       bool // contract is assumed, body not verified (external functions)
+	NoBody        bool
+	Asserts       []*SiteAssert
+	Lets          []LetDef
+	Relies        []*Clause
+	Ghosts        []GhostUpdate
+	ParamNames    []string      // interface contracts: parameter names of the method
+	AssumeAsserts []string      // type assertions to these types are assumed to succeed (listed)
+	BV            bool          // verify in bit-vector mode
+	Consumes      []ConsumeSpec // function-typed parameters / expressions completed exactly once
+	Implements    []string      // interface contracts (keys) this function must refine
+	InlineCalls   []string      // callees (by name pattern) whose body is executed in place in this function
+	File          string
+	Line          int
+	Used          bool
 }
 
 // ConsumeSpec: "consumes cb [unless E]" - every return satisfies invoked(cb) + (E ? 1 : 0) == 1,
@@ -132,16 +132,16 @@ type PredDef struct {
 }
 
 type Contracts struct {
-	Funcs     map[string]*FuncContract // by full key
-	Preds     map[string]*PredDef      // by pkgpath + "." + name, and by bare name
-	Expect    map[string]int           // property -> minimum obligations
-	GhostMaps map[string]bool
+	Funcs      map[string]*FuncContract // by full key
+	Preds      map[string]*PredDef      // by pkgpath + "." + name, and by bare name
+	Expect     map[string]int           // property -> minimum obligations
+	GhostMaps  map[string]bool
 	GlobalInvs []*GlobalInv
-	Devirt    map[string]string // interface type (pkgpath.Name) -> concrete struct type (pkgpath.Name); pointer receiver
-	Immutable map[string]*ImmutableSpec // field family prefix (T.f) -> spec
-	Guarded   map[string]*GuardedSpec   // field family prefix (T.f) -> spec
-	Files     []string
-	Sources   map[string]string // file -> which source (repo|mirror)
+	Devirt     map[string]string         // interface type (pkgpath.Name) -> concrete struct type (pkgpath.Name); pointer receiver
+	Immutable  map[string]*ImmutableSpec // field family prefix (T.f) -> spec
+	Guarded    map[string]*GuardedSpec   // field family prefix (T.f) -> spec
+	Files      []string
+	Sources    map[string]string // file -> which source (repo|mirror)
 }
 
 var clauseKeywords = map[string]bool{
